@@ -1209,6 +1209,13 @@ class RouteBuilderValidator(Validator[list[Any]]):
         # Parse prefix if present (for INET-family routes)
         if self.schema.prefix_parser:
             ipmask = self.schema.prefix_parser(tokeniser)
+            # the family comes from the command words (announce ipv4 unicast ...), the packed address from the
+            # prefix: an IPv6 prefix in an ipv4 command would be announced as the IPv4 prefix of its first octets
+            if ipmask.afi != self.afi:
+                raise ValueError(
+                    f"'{ipmask.top()}/{int(ipmask.mask)}' is not a valid {self.afi} prefix\n"
+                    f'  The prefix must be of the address family of the command'
+                )
             settings.cidr = CIDR.create_cidr(ipmask.pack_ip(), ipmask.mask)
             settings.afi = self.afi
             settings.safi = self.safi
